@@ -446,6 +446,14 @@ def build_case_assembly(rng):
 
 
 def do_assemblies(spec, rec):
+    from armi.reactor import blocks as _blocks
+
+    pools = INT_SCALARS + INT_ARRAYS + AVG_SCALARS + AVG_ARRAYS + PEAKS
+    declared = param_kinds(_blocks.HexBlock("fuel"), pools)
+    rec.note("judged_parameter_kinds", declared)
+    wrong = [n for n in pools if declared[n] != ("int" if n in INT_SCALARS + INT_ARRAYS else "peak" if n in PEAKS else "avg")]
+    if wrong:
+        rec.note("parameters_whose_declared_location_differs_from_the_harness_pool", wrong)
     for i in range(spec["n"]):
         rng = random.Random("%s:%d" % (spec["rng"], i))
         try:
